@@ -39,15 +39,16 @@ class Cmd:
     """one goit invocation: real argv and the model's view of it"""
     kind = "cmd"
 
-    def __init__(self, name, argv, mtoks, parse=None, modelled=True):
+    def __init__(self, name, argv, mtoks, parse=None, modelled=True, real=None):
         self.name = name
-        self.argv = [B(a) for a in argv]
+        self.argv = [B(a) for a in argv]                                   # clean form: what the oracles read
+        self.real_argv = [B(a) for a in real] if real is not None else self.argv   # what goit is given
         self.mtoks = mtoks
         self.parse = parse          # stdout -> canonical lines
         self.modelled = modelled    # False: only the implementation is run (cobra-level input)
 
     def __repr__(self):
-        return "goit " + " ".join(repr(a.decode("utf-8", "backslashreplace")) for a in self.argv)
+        return "goit " + " ".join(repr(a.decode("utf-8", "backslashreplace")) for a in self.real_argv)
 
     def to_json(self):
         return {"cmd": [a.decode("latin1") for a in self.argv]}
@@ -129,14 +130,41 @@ def c_config(key, val, glob=False):
                ["config", "1" if glob else "0", hx(B(key)), hx(B(val))])
 
 
-@_rec
-def c_add(paths):
-    return Cmd("add", ["add"] + _pos(paths), ["add"] + [hx(B(p)) for p in paths])
+def decorate(p, kind):
+    """an argument spelled differently but naming the same path (Goit cleans its arguments with filepath.Clean;
+    the model takes clean paths): 1 ./p   2 p/   3 ./p/   4 first/../first/rest   5 doubled slash"""
+    p = B(p)
+    if not kind or p in (b"", b".") or p.startswith(b"-"):
+        return p
+    if kind == 1:
+        return b"./" + p
+    if kind == 2:
+        return p + b"/"
+    if kind == 3:
+        return b"./" + p + b"/"
+    if kind == 4:
+        head = p.split(b"/")[0]
+        return head + b"/../" + p
+    if kind == 5:
+        return p.replace(b"/", b"//", 1) if b"/" in p else b".//" + p
+    return p
+
+
+def _decor(paths, decor):
+    paths = [B(p) for p in paths]
+    if not decor:
+        return paths
+    return [decorate(p, decor[i] if i < len(decor) else 0) for i, p in enumerate(paths)]
 
 
 @_rec
-def c_rm(paths):
-    return Cmd("rm", ["rm"] + _pos(paths), ["rm"] + [hx(B(p)) for p in paths])
+def c_add(paths, decor=None):
+    return Cmd("add", ["add"] + _pos(paths), ["add"] + [hx(B(p)) for p in paths], real=["add"] + _pos(_decor(paths, decor)))
+
+
+@_rec
+def c_rm(paths, decor=None):
+    return Cmd("rm", ["rm"] + _pos(paths), ["rm"] + [hx(B(p)) for p in paths], real=["rm"] + _pos(_decor(paths, decor)))
 
 
 @_rec
@@ -188,10 +216,11 @@ def c_reset(mode, arg):
 
 
 @_rec
-def c_restore(paths, staged=False):
+def c_restore(paths, staged=False, decor=None):
     return Cmd("restore-staged" if staged else "restore",
                ["restore"] + (["--staged"] if staged else []) + _pos(paths),
-               ["restore", "1" if staged else "0"] + [hx(B(p)) for p in paths])
+               ["restore", "1" if staged else "0"] + [hx(B(p)) for p in paths],
+               real=["restore"] + (["--staged"] if staged else []) + _pos(_decor(paths, decor)))
 
 
 @_rec
@@ -274,7 +303,7 @@ def run_real(goit, steps, tz="UTC", tz_offset=0, base=None, keep=False, hook=Non
             else:
                 if hook:
                     hook(sb, st)
-                r.res = sb.run(st.argv)
+                r.res = sb.run(st.real_argv)
             r.after = Snap(sb)
             r.new_objs = [k for k in r.after.objects if k not in prev.objects]
             for k in r.new_objs:
